@@ -62,6 +62,13 @@ theorem c01_safety_h31 (iss : SideId → Seq) (ops : List Op) (hok : RunOk iss {
     (s' : Sys) (rs : List Res) (hrun : Sys.run {} ops = .ok (s', rs)) (h31 : H31 s') : C01Safe s' :=
   c01_safety iss ops hok s' rs hrun h31.lt31
 
+/-- H31 as a condition on the *inputs*: fewer than 2^31 bytes are written on each side over the
+    whole run (`writeBytes x ops` = total size of the `write x` ops) -/
+theorem c01_safety_writes (iss : SideId → Seq) (ops : List Op) (hok : RunOk iss {} ops)
+    (s' : Sys) (rs : List Res) (hrun : Sys.run {} ops = .ok (s', rs))
+    (ha : writeBytes .A ops < 2147483648) (hb : writeBytes .B ops < 2147483648) : C01Safe s' :=
+  c01_safety iss ops hok s' rs hrun (Lt31.of_writes hrun ha hb)
+
 /-- "at every moment": the safety predicate holds after every prefix of the run; H31 is only
     required of the final logs (the logs grow monotonically) -/
 theorem c01_safety_every_step (iss : SideId → Seq) (ops : List Op) (hok : RunOk iss {} ops)
